@@ -7,7 +7,9 @@ It(t, c) == [t |-> t, c |-> c]
 LinesOver(S) == UNION { [1..n -> S] : n \in 0..2 }
 FileOver(S, m) == UNION { [1..n -> LinesOver(S)] : n \in 0..m }
 VARIABLE files
-Init == files \in { <<a, b, c>> : a \in FileOver({It("x", 1), It("ei", 0), It("in", 2), It("in", 3)}, 2),
+Mac(body) == [t |-> "m", c |-> 0, body |-> body]
+Init == files \in { <<a, b, c>> : a \in FileOver({It("x", 1), It("ei", 0), It("in", 2), It("in", 3),
+                                                       Mac(<<It("ei", 0), It("in", 3), It("x", 4)>>), Mac(<<It("x", 4), It("in", 2), It("x", 5)>>)}, 2),
                                   b \in FileOver({It("x", 2), It("ei", 0), It("in", 3), It("in", 2)}, MaxLines2),
                                   c \in FileOver({It("x", 3), It("ei", 0)}, 1) } /\ SInit
 Next == UNCHANGED <<files, str, op, dead>>
